@@ -27,6 +27,8 @@ for d in sorted(glob.glob('/verif/seeded/*/')):
         breaks = caught[:1]
     summ = ' '.join(str(m.get('summary', '')).split())[:150].replace('|', '/')
     when = 'after strengthening' if m.get('history') else 'first try'
+    if not caught:
+        when = 'not caught (see meta.json note)'
     rows.append((name, ','.join(dict.fromkeys(breaks)), summ, '; '.join(first) or 'MISSED', when, ','.join(missed)))
 out = ['# Seeded changes and which check catches them', '',
        "Every change below was written by a sub-agent that saw only the property text and a scratch worktree, was confirmed by `tools/confirm_mutation.sh` (compiles, the touched packages' existing tests pass, its demonstration fails with it and passes without it) and is kept as `seeded/<name>/{patch.diff,demo_test.go,meta.json}`. `tools/reseed.sh` re-applies every patch to /repo HEAD in a throw-away worktree and re-runs the check (quick tier, seed 1). The last column names further checks that were run against the change and (legitimately) stayed silent because the change does not break their property.", '',
@@ -34,7 +36,7 @@ out = ['# Seeded changes and which check catches them', '',
 for r in rows:
     out.append('| ' + ' | '.join(r) + ' |')
 out.append('')
-out.append('%d changes; %d caught at the first try, %d after the strengthening recorded in their meta.json `history`.' % (
-    len(rows), sum(1 for r in rows if r[4] == 'first try'), sum(1 for r in rows if r[4] != 'first try')))
+out.append('%d changes; %d caught at the first try, %d after the strengthening recorded in their meta.json `history`, %d not caught.' % (
+    len(rows), sum(1 for r in rows if r[4] == 'first try'), sum(1 for r in rows if r[4] == 'after strengthening'), sum(1 for r in rows if r[4].startswith('not caught'))))
 open('/verif/seeded/TABLE.md', 'w').write('\n'.join(out) + '\n')
 print(out[-1])
